@@ -43,6 +43,7 @@ func main() {
 		{"CleanupRingGen.v", genCleanupRing},
 		{"SplitTailGen.v", genSplitTail},
 		{"MatchGen.v", genMatch},
+		{"DedupeGen.v", genDedupe},
 		{"TmsData.v", genTmsData},
 		{"CliGen.v", genCli},
 		{"RingHelpersGen.v", genRingHelpers},
